@@ -141,7 +141,12 @@ func (f *Formatter) formatIfExpression(expr *ast.IfExpression) string {
 	defer bufferPool.Put(buf)
 
 	buf.Reset()
-	buf.WriteString("if(")
+	buf.WriteString("if")
+	// comments between "if" and the left parenthesis
+	if v := f.formatComment(expr.Infix, "", 0); v != "" {
+		buf.WriteString(" " + v + " ")
+	}
+	buf.WriteString("(")
 	buf.WriteString(f.formatExpression(expr.Condition).String())
 	buf.WriteString(", ")
 	buf.WriteString(f.formatExpression(expr.Consequence).String())
@@ -176,6 +181,8 @@ func (f *Formatter) formatFunctionCallExpression(expr *ast.FunctionCallExpressio
 			buf.WriteString(", ")
 		}
 	}
+	// comments inside the empty parenthesis
+	buf.WriteString(f.formatComment(expr.Infix, "", 0))
 	buf.WriteString(")")
 
 	return buf.String()
